@@ -769,7 +769,7 @@ pub fn gen_world(rng: &mut Rng, o: &WorldOpts) -> Vec<Obj> {
             }
             let proto = if o.preset == "lookalikes" { protos[k % nproto].clone() } else { protos[k].clone() };
             let lifespan = o.steps;
-            let visible_from = if rng.chance(0.3) { rng.usize(lifespan / 2 + 1) } else { 0 };
+            let visible_from = if rng.chance(0.3) { rng.usize((lifespan / 2 + 1).min(60)) } else { 0 };
             let gone_at = if rng.chance(0.3) { visible_from + 2 + rng.usize(lifespan) } else { usize::MAX };
             let (gap_at, gap_len) = if rng.chance(0.4) { (visible_from + 1 + rng.usize(lifespan), 1 + rng.usize(4)) } else { (usize::MAX, 0) };
             objs.push(Obj {
@@ -812,8 +812,11 @@ pub fn step_scene(rng: &mut Rng, objs: &mut [Obj], scene: u64, step: usize, o: &
     for ob in objs.iter_mut().filter(|x| x.scene == scene) {
         match ob.motion {
             1 => {
-                ob.vx *= 1.01;
-                ob.vy *= 1.01;
+                // accelerating, but never faster than half a box height per frame
+                if (ob.vx * ob.vx + ob.vy * ob.vy).sqrt() < 0.5 * ob.h {
+                    ob.vx *= 1.01;
+                    ob.vy *= 1.01;
+                }
             }
             2 => {
                 ob.vx += rng.normal() * 0.02 * ob.h;
@@ -826,6 +829,11 @@ pub fn step_scene(rng: &mut Rng, objs: &mut [Obj], scene: u64, step: usize, o: &
             }
             _ => {}
         }
+        let sp = (ob.vx * ob.vx + ob.vy * ob.vy).sqrt();
+        if sp > 0.6 * ob.h {
+            ob.vx *= 0.6 * ob.h / sp;
+            ob.vy *= 0.6 * ob.h / sp;
+        }
         if ob.motion != 3 || step % 12 < 6 {
             ob.x += ob.vx;
             ob.y += ob.vy;
@@ -833,7 +841,20 @@ pub fn step_scene(rng: &mut Rng, objs: &mut [Obj], scene: u64, step: usize, o: &
         if o.preset == "teleport" && rng.chance(0.05) {
             ob.x += ob.h * rng.uniform(3.0, 8.0);
         }
-        ob.h *= ob.grow;
+        // the world stays inside the domain of the properties whatever the number of steps: sizes 2..2000, coordinates
+        // within a few thousand units (objects bounce off the border)
+        ob.h = (ob.h * ob.grow).clamp(2.0, 2000.0);
+        if ob.h <= 2.0 || ob.h >= 2000.0 {
+            ob.grow = 1.0 / ob.grow;
+        }
+        if !(-3000.0..=8000.0).contains(&ob.x) {
+            ob.vx = -ob.vx;
+            ob.x = ob.x.clamp(-3000.0, 8000.0);
+        }
+        if !(-3000.0..=8000.0).contains(&ob.y) {
+            ob.vy = -ob.vy;
+            ob.y = ob.y.clamp(-3000.0, 8000.0);
+        }
         if let Some(a) = ob.angle.as_mut() {
             *a += ob.dangle;
         }
